@@ -159,6 +159,16 @@ package server
 //@   call (*apiServer).resumeStream requires !p.config.TLSClientAuthz || ghost.authz[arg2]["Publish"]
 //@   call Publish requires !p.config.TLSClientAuthz || ghost.authz[req.Stream]["Publish"]
 
+// "a policy reload takes effect for subsequent calls": every SIGHUP the signal goroutine receives makes it ask the
+// enforcer to load the policy file again - whatever the file looks like from outside (its size and modification time do
+// not say whether its content changed)
+//@ axiom os.Interrupt != boxed(syscall.SIGHUP)
+//@ ghost var reloadAsked bool
+//@ func (*Server).handleSignals$1 serves C15
+//@   ghost at loop 1: ghost.reloadAsked := false
+//@   ghost after call LoadPolicy: ghost.reloadAsked := true
+//@   loop 1 backedge requires [C15:every-hangup-signal-reloads-the-policy] sig == boxed(syscall.SIGHUP) ==> ghost.reloadAsked
+
 // The effectful functions below the handlers may be entered only from the functions that carry the
 // obligations above (or from the listed server-internal callers, which act for the server itself
 // or for a request that another server's handler already authorised).
